@@ -808,8 +808,21 @@ func OnceDo(o *sync.Once, f func(), site string) {
 			o.Do(f)
 			return
 		}
+		if st == 3 {
+			declareDeadlock(s, t, site+" (sync.Once.Do called recursively from inside its own function)")
+		}
 		s.step(t, site, EvBlocked, true)
 	}
+}
+
+// declareDeadlock ends the run: the calling task can never proceed.
+//
+//go:norace
+func declareDeadlock(s *Sim, t *Task, site string) {
+	s.Deadlock = true
+	s.StuckSite = site
+	rawWrite(s.mainW)
+	rawRead(t.rfd) // park forever
 }
 
 //go:norace
@@ -836,7 +849,7 @@ func onceEnter(s *Sim, t *Task, o *sync.Once) int {
 		return 1
 	}
 	if st.running == t {
-		return 1 // recursive Do: let the real Once deadlock/behave as it would
+		return 3 // recursive Do on the same Once: the real sync.Once deadlocks
 	}
 	s.Stats.OnceWaits++
 	return 2
